@@ -509,6 +509,10 @@ class Quotient(Constructor[CombinatorialClassType, CombinatorialObjectType]):
         Dict representing the polynomial that multiply the polynomial of the
         flipped child for length n.
         """
+        if self.number_of_children == 1:
+            # no sibling: the empty product, i.e. the constant polynomial 1
+            # (utils.compositions yields nothing for zero parts)
+            return Counter({tuple(0 for _ in range(self._num_parent_params)): 1})
         min_sizes = self._min_sizes[: self.idx] + self._min_sizes[self.idx + 1 :]
         max_sizes = self._max_sizes[: self.idx] + self._max_sizes[self.idx + 1 :]
         possible_sizes = utils.compositions(
